@@ -107,6 +107,7 @@ class GateReader(PyReader):
     evaluated module."""
 
     record_aed = True
+    extern_classes: dict = {}  # {class name of a model object: ClassDef in another module} - properties are followed there
 
     def __init__(self, module: ast.Module, where: str = "", depth_limit: int = 8):
         super().__init__(module, where, depth_limit)
@@ -186,6 +187,13 @@ class GateReader(PyReader):
             if attr.lstrip("_") in base.attrs:
                 v = base.attrs[attr.lstrip("_")]
                 return list(v) if isinstance(v, list) else v
+            cdef = self.extern_classes.get(base.cls)
+            if cdef is not None:
+                # a property the object's class defines in ANOTHER module (QuantityVector.has_any_dimension): evaluated from its source on the model object
+                prop = next((f_ for f_ in cdef.body if isinstance(f_, ast.FunctionDef) and f_.name == attr
+                             and any(dotted(d_) in ("property", "cached_property", "functools.cached_property") for d_ in f_.decorator_list)), None)
+                if prop is not None:
+                    return self.call_def(prop, [base], {}, {})
         if isinstance(base, tuple) and len(base) == 2 and base[0] == "complex-of" and attr in ("real", "imag", "conjugate"):
             raise MagnitudeUse(n, f".{attr} of the scale factor's value")
         if isinstance(base, Dim) and attr == "name":
@@ -222,6 +230,13 @@ class GateReader(PyReader):
             raise MagnitudeUse(n, "arithmetic on the scale factor")
         if isinstance(l, Dim) and isinstance(r, Dim) and isinstance(o, (ast.Mult, ast.Div)):
             return l.mul(r, 1 if isinstance(o, ast.Mult) else -1)
+        if isinstance(l, Dim) and isinstance(o, ast.Pow) and not l.any_dim:
+            e = Fraction(r) if isinstance(r, int) and not isinstance(r, bool) else (r.val if isinstance(r, T) and r.op == "num" else None)
+            if e is not None:
+                return Dim(tuple((b, x * e) for b, x in l.exps if x * e != 0))
+        if isinstance(o, (ast.Mult, ast.Div)) and ((isinstance(l, Dim) and (r == 1 or (isinstance(r, T) and r.op == "num" and r.val == 1)))
+                                                   or (isinstance(r, Dim) and isinstance(o, ast.Mult) and (l == 1 or (isinstance(l, T) and l.op == "num" and l.val == 1)))):
+            return l if isinstance(l, Dim) else r  # Dimension(1) spelled as the number one
         return NotImplemented
 
     def hook_compare(self, o, l, r, n):
